@@ -4,46 +4,65 @@ spec  : KSymBase.tla (groups acting on grid points and integer tensors = PointSy
         IrredKernel.tla (covariant fields, the irreducible + symmetrised integral, the full integral, tabulation + to_grid),
         MC_IrredKernel.tla (group x dense grid x rank x true parities x source field; BuildField -> Factorise -> Integrate),
         IrredKernelRec.tla (record validation)
-bind  : spec -> code: for every finished TLC state the specification's covariant integer field is injected into the real run()
-        through a synthetic calculator / tabulator reading data_K.kpoints_all; the irreducible + symmetrised run and the full
-        unsymmetrised run must both return the specification's exact integral, and the tabulated values after to_grid must be
-        the field itself at every grid point.
+bind  : spec -> code: for finished TLC states (every group and grid, a seeded sample of the factorisations) the specification's
+        covariant integer field is injected into the real run() through a synthetic calculator / tabulator reading
+        data_K.kpoints_all; the irreducible + symmetrised run, the full unsymmetrised run (and, for a subset, the full run with
+        symmetrisation alone) must return the specification's exact integral, and the tabulated values on the grid must be the
+        field itself at every grid point.
         code -> spec: random integer fields symmetrised by the harness, run through the real run(); TLC checks on the record that
         the field is covariant (the synthetic system really has the group), and every clause of IrredKernel on the returned
         numbers.
-numeric_only: genuinely symmetric tight-binding models (random models averaged over a catalogue group incl. magnetic groups,
-        bundled Haldane / Chiral / Kane-Mele models with the symmetries the test-suite declares): irreducible + symmetrised vs
-        full run for real static, dynamic and tabulating calculators.
+float (deciding): covariant float / complex fields of rank 1-3 with the transforms the package declares beyond the model
+        (transpose_axes (0,2,1) / (1,0,2), conj, swap_axes) on cubic groups and of rank 1-2 on hexagonal groups (irrational Cartesian
+        rotations); every integrating and tabulating calculator of the package on exactly symmetric spinful models with all matrices
+        for the groups {E,T}, {E,I}, {E,I,T,IT}; genuinely symmetric tight-binding models (random models averaged over a catalogue
+        group incl. magnetic groups, bundled Haldane / Chiral / Kane-Mele models): irreducible + symmetrised vs full run, one of
+        them also with one step of adaptive refinement of every K-point.
 """
 import os
 import copy
+import json
 import random
 import shutil
 import numpy as np
 
 from .. import tlc, ftable
-from ..common import Report, MachineryError, seed, quiet, workdir, WORK
+from ..common import Report, MachineryError, seed, quiet, workdir, WORK, VERIF
 from . import _ksym as KS
-from .c03 import run_model, tla_set, vec, energies_safe, WORKERS
+from .c03 import run_model, tla_set, vec, energies_safe, compare_resultdicts, cleanup, cpu_seconds, WORKERS
 
 PROPS = {
     "C07": dict(level="model_checking",
-                technique="TLC exhaustive on IrredKernel.tla (irreducible + symmetrised integral = full integral, to_grid reproduces the "
-                          "tabulated field, for every catalogue group x grid x factorisation x tensor rank x TR/inversion behaviour, for "
-                          "hash fields and for the delta basis of all integer fields) + replay of every finished TLC state through the real "
-                          "run() with the specification's covariant field injected via data_K.kpoints_all + TLC validation of recorded runs",
-                text="TLC builds covariant integer tensor fields (rank 0-2, even/odd/transposing under time reversal and inversion) for 25 "
-                     "magnetic point groups and checks that the weighted, symmetrised sum over the irreducible K-points equals the plain sum "
-                     "over the full grid and that the symmetry images collected by to_grid reproduce the field; a wrongly declared parity is "
-                     "rejected. Each finished state is executed on the real run() (use_irred_kpt=True vs use_irred_kpt=False, "
-                     "symmetrize=False) with a synthetic calculator and a synthetic tabulator and compared with the exact value. Real "
-                     "calculators on genuinely symmetric models are compared numerically (numeric_only, not part of the level claim).",
+                technique="TLC exhaustive on IrredKernel.tla (irreducible + symmetrised integral = full integral = full integral with "
+                          "symmetrisation alone, to_grid reproduces the tabulated field, for every catalogue group x grid x factorisation x "
+                          "tensor rank 0-2 x TR/inversion behaviour, for hash fields and - model only - for the delta basis of all integer "
+                          "fields) + replay of finished TLC states (every group and grid, seeded sample of factorisations: quick 40 of ~160 run "
+                          "configurations, thorough 500) through the real run() with the specification's covariant field injected via "
+                          "data_K.kpoints_all + TLC validation of recorded runs + float comparisons (fields with the transforms outside the "
+                          "model, all real calculators on symmetric models)",
+                text="TLC builds covariant integer tensor fields (rank 0-2, even/odd/transposing under time reversal and inversion) for the "
+                     "catalogue of magnetic point groups (quick: 10, thorough: 25) and checks that the weighted, symmetrised sum over the "
+                     "irreducible K-points equals the plain sum over the full grid and that the symmetry images collected by to_grid reproduce "
+                     "the field; a wrongly declared parity is rejected. Sampled finished states are executed on the real run() "
+                     "(use_irred_kpt=True vs use_irred_kpt=False, symmetrize=False; symmetrize=True alone for a subset) with a synthetic "
+                     "calculator and a synthetic tabulator and compared with the exact value. Outside the model and decided in floating "
+                     "point (tolerance >= 1e4 x the deviation of the unchanged tree): rank-3 tensors and the transforms transpose (0,2,1) / "
+                     "(1,0,2), conj, swap_axes; vectors and rank-2 tensors on hexagonal lattices; the DECLARED parities of the package's own "
+                     "calculators - every static, dynamic, SDCT and tabulating calculator found by reflection is run irreducible + symmetrised "
+                     "vs full on exactly symmetric spinful models for {E,T}, {E,I}, {E,I,T,IT} and a subset on symmetrised random models of 4 "
+                     "(thorough 17) catalogue groups and the bundled Haldane / Chiral / Kane-Mele models; one model also with adaptive "
+                     "refinement of every K-point.",
                 note="exact tensors need integer Cartesian rotations: cubic-type lattices for ranks 0-2, hexagonal groups with rank 0 (scalar / "
-                     "pseudo-scalar); results are compared after scaling by the number of k-points (tolerance 1e-9 on integers)",
+                     "pseudo-scalar); results are compared after scaling by the number of k-points (tolerance 1e-8 on integers). Symmetric "
+                     "systems are s-like orbitals at the origin (synthetic and symmetrised-random models), orbitals at inversion-symmetric "
+                     "sites with parities and spinors ({E,T}, {E,I}, {E,I,T,IT} models) and the three bundled C3z models: non-symmorphic "
+                     "groups and rotations acting on p/d orbitals are not covered. sdct.SDCT_asym under time reversal is a known defect "
+                     "(known finding of C08, Formula_SDCT_surf_II(sym=False)); it is reported under known_elsewhere, not as a violation",
                 ref="DESIGN.md 3.3, 5 (C07)"),
 }
 
-IK_INVS = ["FieldCovariant", "IrredEqualsFull", "FullIsGridSum", "TabOnGrid"]
+IK_INVS = ["FieldCovariant", "IrredEqualsFull", "FullIsGridSum", "TabOnGrid", "SymOnlyEqualsFull"]
+TOL = 1e-8
 
 
 def ik_cfg(groups, ns, ranks, seeds, deltas, transpose, declared="true"):
@@ -74,47 +93,79 @@ def field_array(fld, N, rank):
 # ------------------------------------------------------------------------------------------------------------------
 
 
-def run_pair(grp, N, div, fft, fields, runname):
-    """fields: {name: (table (nrow, Ntot)+(3,)*rank, rank, tTR, tInv)} with 'r0_e_e' present.
-    Runs the irreducible+symmetrised and the full unsymmetrised run() -> (res_irr, res_full)"""
+def run_modes(rep, grp, N, div, fft, fields, runname, info, modes=("full", "irr"), transforms=None):
+    """fields: {name: (table (nrow, Ntot)+(3,)*rank, rank, tTR, tInv)} with 'r0_e_e' present (tTR/tInv: spec pairs, or package
+    Transforms when transforms='given').  Runs run() in the requested modes:
+        full    : use_irred_kpt=False, symmetrize=False  (the reference)
+        irr     : use_irred_kpt=True  (+ symmetrisation)
+        symonly : use_irred_kpt=False, symmetrize=True
+    -> {mode: ResultDict or None}.  The package raising on these valid inputs is a violation (the mode is then None); faults of the
+    harness's own synthetic objects / calls are re-raised (exit 2)."""
     import wannierberri as wb
     system = KS.make_system(grp)
-    out = []
-    for irred in (True, False):
-        calcs = {name: KS.FieldIntegrator(N, tab, rank, KS.transform_of(tTR), KS.transform_of(tInv))
-                 for name, (tab, rank, tTR, tInv) in fields.items()}
+    tf = (lambda t: t) if transforms == "given" else KS.transform_of
+
+    def calcs():
+        c = {name: KS.FieldIntegrator(N, tab, rank, tf(tTR), tf(tInv)) for name, (tab, rank, tTR, tInv) in fields.items()}
         en = fields["r0_e_e"][0]
-        calcs["tab"] = KS.FieldTabulator(N, en, {name: (tab, rank, KS.transform_of(tTR), KS.transform_of(tInv))
-                                                 for name, (tab, rank, tTR, tInv) in fields.items()})
-        with quiet():
-            grid = wb.Grid(system=system, NKdiv=list(div), NKFFT=list(fft))
-        out.append(KS.run_wb(system, grid, calcs, irred, runname))
+        c["tab"] = KS.FieldTabulator(N, np.real(en), {name: (tab, rank, tf(tTR), tf(tInv)) for name, (tab, rank, tTR, tInv) in fields.items()})
+        return c
+    out = {}
+    grid = None
+    for mode in ("full", "irr", "symonly"):
+        if mode not in modes:
+            continue
+        if mode != "full" and out.get("full") is None:
+            out[mode] = None
+            continue
+        try:
+            if grid is None:
+                with quiet():
+                    grid = wb.Grid(system=system, NKdiv=list(div), NKFFT=list(fft))
+            out[mode] = KS.run_wb(system, grid, calcs(), mode == "irr", runname, symmetrize=(mode != "full"))
+        except (MachineryError, KS.NonIntegral):
+            raise
+        except Exception as ex:
+            KS.report_exception(rep, ex, f"run:{mode}", dict(info, mode=mode))
+            out[mode] = None
     return out
 
 
-def tab_values(res, name, N, rank):
-    """tabulated quantity after to_grid -> array (Ntot, nb) + (3,)*rank in flat order"""
+def tab_values(res, name, N):
+    """tabulated quantity on the dense grid -> array (Ntot, nb) + (3,)*rank in flat order (x outermost), None when the result is
+    not a tabulation on the grid N (run() puts grid tabulations on their grid; if it did not, the public to_grid is asked)"""
     t = res.results["tab"]
-    if t.grid is None or tuple(int(x) for x in t.grid) != tuple(N):
-        return None
-    d = t.get_data(quantity=name)
-    return np.asarray(d).reshape((int(np.prod(N)),) + d.shape[3:])
+    Ntot = int(np.prod(N))
+    for attempt in (0, 1):
+        try:
+            d = np.asarray(t.get_data(quantity=name))
+        except Exception:
+            d = None
+        if d is not None and d.ndim >= 4 and tuple(d.shape[:3]) == tuple(N):
+            return d.reshape((Ntot,) + d.shape[3:])
+        if attempt == 0:
+            try:
+                with quiet():
+                    t = t.to_grid(np.array(N))
+            except Exception:
+                return None
+    return None
 
 
-def part_kernel(rep, thorough, rng):
+def part_kernel(rep, thorough, rng, tag):
     cart = sorted(KS.CART)
     hexg = sorted(KS.HEX)
     if thorough:
-        cfgs = [("c07_ik", ik_cfg(cart + hexg, "NSt", [0, 1, 2], [1, 2], False, True)),
-                ("c07_ik_big", ik_cfg(["C4v", "mFe", "T23", "Oh"], "NSb", [0, 1, 2], [1], False, False))]
+        cfgs = [("ik", ik_cfg(cart + hexg, "NSt", [0, 1, 2], [1, 2], False, True)),
+                ("ik_big", ik_cfg(["C4v", "mFe", "T23", "Oh"], "NSb", [0, 1, 2], [1], False, False))]
     else:
-        cfgs = [("c07_ik", ik_cfg(["C1", "T", "C2v", "C4v", "mC4v", "mFe", "Oh", "H6v", "H3T", "mH6v"], "NSq", [0, 1, 2], [1], False, True))]
+        cfgs = [("ik", ik_cfg(["C1", "T", "C2v", "C4v", "mC4v", "mFe", "Oh", "H6v", "H3T", "mH6v"], "NSq", [0, 1, 2], [1], False, True))]
     spec_groups = {}
     runs = {}          # (grp, N, div, fft) -> {(rank, tTR, tInv): {seed: state}}
     for name, cfg in cfgs:
-        st = run_model(rep, "MC_IrredKernel.tla", cfg, name, timeout=3000)
-        ftable.spec_violation(rep, st, name)
-        rep.add_tlc(name, st)
+        st = run_model(rep, "MC_IrredKernel.tla", cfg, name, timeout=3000, workroot=os.path.join(WORK, tag))
+        ftable.spec_violation(rep, st, "c07_" + name)
+        rep.add_tlc("c07_" + name, st)
         for s in KS.iter_dump(st["dump_path"], want='pc = "done"', drop=("gset", "klist", "ksets"), keep_first_of=("grp", spec_groups)):
             key = (s["grp"], vec(s["N"]), vec(s["div"]), vec(s["fft"]))
             runs.setdefault(key, {}).setdefault((int(s["rank"]), par(s["tTR"]), par(s["tInv"])), {})[int(s["src"]["seed"])] = s
@@ -125,7 +176,7 @@ def part_kernel(rep, thorough, rng):
         if real != spec_groups[g]:
             raise MachineryError(f"catalogue mismatch for group {g}: {sorted(real ^ spec_groups[g])[:3]}")
     keys = sorted(runs)
-    cap = 500 if thorough else 70
+    cap = 500 if thorough else 40
     if len(keys) > cap:
         # keep every group and every grid, sample the factorisations
         rng.shuffle(keys)
@@ -134,8 +185,9 @@ def part_kernel(rep, thorough, rng):
         fs = set(first)
         rest = [k for k in keys if k not in fs]
         keys = sorted(first + rest[:max(0, cap - len(first))])
-    nstates = nnonzero = nreduced = 0
+    nstates = nnonzero = nreduced = nsymonly = 0
     worst = 0.0
+    symonly_groups = set()
     for key in keys:
         grp, N, div, fft = key
         Ntot = int(np.prod(N))
@@ -148,81 +200,96 @@ def part_kernel(rep, thorough, rng):
             fields[f"r{rank}_{parname(tTR)}_{parname(tInv)}"] = (tab, rank, tTR, tInv)
         if "r0_e_e" not in fields:
             raise MachineryError(f"model has no invariant scalar field for {key}")
+        # symmetrisation alone: once per group (quick) / for every third configuration (thorough)
+        with_symonly = (grp not in symonly_groups and nG > 1) if not thorough else (nstates % 3 == 0)
+        symonly_groups.add(grp)
+        base = dict(group=grp, generators=[str(g) for g in KS.generators_of(grp)], N=N, NKdiv=div, NKFFT=fft)
         try:
-            r_irr, r_full = run_pair(grp, N, div, fft, fields, "c07_run")
+            res = run_modes(rep, grp, N, div, fft, fields, tag + "_run", base, modes=("full", "irr") + (("symonly",) if with_symonly else ()))
         except KS.NonIntegral as ex:
-            rep.violation("run:kpoints_all_nonintegral", dict(group=grp, N=N, NKdiv=div, NKFFT=fft, what=str(ex)))
+            rep.violation("run:kpoints_all_nonintegral", dict(base, what=str(ex)))
             continue
-        except Exception as ex:      # the specification says both runs exist
-            import traceback
-            rep.violation(f"run:exception:{type(ex).__name__}", dict(group=grp, N=N, NKdiv=div, NKFFT=fft, what=str(ex)[:300],
-                                                                     where=traceback.format_exc().splitlines()[-3:]))
+        r_full, r_irr, r_sym = res.get("full"), res.get("irr"), res.get("symonly")
+        if r_full is None:
             continue
+        nsymonly += r_sym is not None
         for (rank, tTR, tInv), by_seed in sorted(combos.items()):
             name = f"r{rank}_{parname(tTR)}_{parname(tInv)}"
             seeds = sorted(by_seed)
-            info = dict(group=grp, generators=[str(g) for g in KS.generators_of(grp)], N=N, NKdiv=div, NKFFT=fft, rank=rank,
-                        transformTR=dict(factor=tTR[0], transpose=tTR[1]), transformInv=dict(factor=tInv[0], transpose=tInv[1]))
+            info = dict(base, rank=rank, transformTR=dict(factor=tTR[0], transpose=tTR[1]), transformInv=dict(factor=tInv[0], transpose=tInv[1]))
             exp_full = np.array([tensor(rank, by_seed[s]["full"]) for s in seeds])
             exp_irr = np.array([tensor(rank, by_seed[s]["irr"]) for s in seeds]) / nG
-            got_irr = r_irr.results[name].data * Ntot
-            got_full = r_full.results[name].data * Ntot
-            for s in seeds:
-                nstates += 1
-                rep.case(("ik", key, rank, tTR, tInv, s), nontrivial=bool(np.any(exp_full != 0)) or rank == 0)
-            nnonzero += int(np.any(exp_full != 0))
-            worst = max(worst, float(max(np.abs(got_irr - exp_full).max(), np.abs(got_full - exp_full).max()) / max(1.0, np.abs(exp_full).max())))
             if np.abs(exp_irr - exp_full).max() > 0:
                 raise MachineryError("dump inconsistent: irr != |G| full in a state that passed IrredEqualsFull")
-            tol = 1e-8 * max(1.0, float(np.abs(exp_full).max()))
+            for s in seeds:
+                nstates += 1
+                rep.case(("ik", key, rank, tTR, tInv, s), nontrivial=bool(np.any(field_array(by_seed[s]["fld"], N, rank) != 0)))
+            nnonzero += int(np.any(exp_full != 0))
+            tol = TOL * max(1.0, float(np.abs(exp_full).max()))
+            got_full = r_full.results[name].data * Ntot
+            worst = max(worst, float(np.abs(got_full - exp_full).max() / max(1.0, np.abs(exp_full).max())))
             if np.abs(got_full - exp_full).max() > tol:
                 rep.violation(f"run:full_vs_spec:rank{rank}", dict(info, field_seeds=seeds, expected=exp_full.tolist(), got=got_full.tolist(), unit="1/Ntot"))
-            if np.abs(got_irr - exp_full).max() > tol:
-                rep.violation(f"run:irreducible_vs_spec:rank{rank}:TR{parname(tTR)}:I{parname(tInv)}",
-                              dict(info, field_seeds=seeds, expected=exp_full.tolist(), got=got_irr.tolist(), unit="1/Ntot",
-                                   field=[by_seed[s]["fld"] for s in seeds][:1]))
-            elif np.abs(got_irr - got_full).max() > tol:
-                rep.violation(f"run:irreducible_vs_full:rank{rank}", dict(info, irreducible=got_irr.tolist(), full=got_full.tolist()))
+            for label, r in (("irreducible", r_irr), ("symmetrize_only", r_sym)):
+                if r is None:
+                    continue
+                got = r.results[name].data * Ntot
+                worst = max(worst, float(np.abs(got - exp_full).max() / max(1.0, np.abs(exp_full).max())))
+                if np.abs(got - exp_full).max() > tol:
+                    rep.violation(f"run:{label}_vs_spec:rank{rank}:TR{parname(tTR)}:I{parname(tInv)}",
+                                  dict(info, field_seeds=seeds, expected=exp_full.tolist(), got=got.tolist(), unit="1/Ntot",
+                                       field=[by_seed[s]["fld"] for s in seeds][:1]))
+                elif np.abs(got - got_full).max() > tol:
+                    rep.violation(f"run:{label}_vs_full:rank{rank}", dict(info, got=got.tolist(), full=got_full.tolist()))
             # tabulation: per grid point the field itself
             exp_tab = np.swapaxes(fields[name][0], 0, 1)            # (Ntot, nseeds, 3..)
-            for label, res in (("irreducible", r_irr), ("full", r_full)):
-                got = tab_values(res, name, N, rank)
-                if got is None:
-                    rep.violation(f"tab:{label}:grid", dict(info, what="TABresult.grid after run() is not the dense grid",
-                                                            got=None if res.results["tab"].grid is None else [int(x) for x in res.results["tab"].grid]))
+            for label, r in (("irreducible", r_irr), ("full", r_full)):
+                if r is None:
                     continue
-                if got.shape != exp_tab.shape or not np.abs(got - exp_tab).max() <= 1e-9:
+                got = tab_values(r, name, N)
+                if got is None or got.shape != exp_tab.shape:
+                    rep.violation(f"tab:{label}:not_on_the_dense_grid", dict(info, what="the tabulated values cannot be brought to the dense grid N",
+                                                                            shape=None if got is None else list(got.shape)))
+                    continue
+                if not np.abs(got - exp_tab).max() <= 1e-9 * max(1.0, float(np.abs(exp_tab).max())):
                     rep.violation(f"tab:{label}:rank{rank}:TR{parname(tTR)}:I{parname(tInv)}",
                                   dict(info, expected=exp_tab.tolist()[:8], got=np.asarray(got).tolist()[:8], order="flat index, x outermost"))
-        if int(np.prod(div)) > len(KS.real_klist(KS.make_system(grp), div, fft, True, with_ksets=False)[0]):
-            nreduced += 1
+        try:
+            if int(np.prod(div)) > len(KS.real_klist(KS.make_system(grp), div, fft, True, with_ksets=False)[0]):
+                nreduced += 1
+        except MachineryError:
+            raise
+        except Exception:
+            pass          # C03 reports K-list problems; here it is only a vacuity counter
         if len(rep.cov["samples"]) < 2 and nG > 2 and Ntot > 4:
             k0 = sorted(combos)[-1]
             s0 = combos[k0][sorted(combos[k0])[0]]
             rep.sample(dict(group=grp, N=N, NKdiv=div, NKFFT=fft, rank=k0[0], tTR=k0[1], tInv=k0[2], field_first_points=list(s0["fld"][:3]),
                             spec_full_integral_times_Ntot=s0["full"]))
-    if nnonzero == 0 or nreduced == 0:
+    if (nnonzero == 0 or nreduced == 0) and not rep.violations:
         raise MachineryError(f"vacuous replay: nonzero integrals {nnonzero}, symmetry-reduced grids {nreduced}")
-    rep.part("ik_replay", run_pairs=len(keys), of_model_run_configs=len(runs), states_replayed=nstates, with_nonzero_integral=nnonzero,
-             reduced_grids=nreduced, worst_relative_deviation=worst, tolerance="1e-8 * max(1, |expected integer|)")
-    return spec_groups
+    rep.part("ik_replay", run_configurations_replayed=len(keys), of_model_run_configs=len(runs), fields_replayed=nstates,
+             with_nonzero_integral=nnonzero, reduced_grids=nreduced, with_symmetrize_only_run=nsymonly, worst_relative_deviation=worst,
+             tolerance="1e-8 * max(1, |expected integer|)")
+    return spec_groups, sorted(runs)
 
 
-def part_model_only(rep, thorough):
-    # the delta basis: by linearity this decides the clauses for every integer source field
+def part_model_only(rep, thorough, tag):
+    # the delta basis: by linearity this decides the clauses for every integer source field (TLC only, not replayed)
     if thorough:
         cfg = ik_cfg(sorted(KS.CART) + sorted(KS.HEX), "NSd", [0, 1, 2], [], True, True)
     else:
         cfg = ik_cfg(["C4v", "mC4", "H6v"], "NSd", [0, 1], [], True, False)
-    st = run_model(rep, "MC_IrredKernel.tla", cfg, "c07_delta", dump=False, timeout=3000)
+    st = run_model(rep, "MC_IrredKernel.tla", cfg, "delta", dump=False, timeout=3000, workroot=os.path.join(WORK, tag))
     ftable.spec_violation(rep, st, "c07_delta")
     rep.add_tlc("c07_delta", st)
+    rep.part("c07_delta", replayed_on_the_code=False)
     # sensitivity: a wrongly declared parity must break the property
     for decl, groups in (("flipInv", ["C4v"]), ("flipTR", ["T", "mFe"])):
-        s2 = tlc.run_tlc("MC_IrredKernel.tla", ik_cfg(groups, "NSs", [0, 1, 2], [1], False, False, decl), f"c07_{decl}", workers=min(4, WORKERS),
-                         coverage=False, timeout=900)
+        s2 = tlc.run_tlc("MC_IrredKernel.tla", ik_cfg(groups, "NSs", [0, 1, 2], [1], False, False, decl), decl, workers=min(4, WORKERS),
+                         coverage=False, timeout=900, workroot=os.path.join(WORK, tag))
         v = s2.get("violation")
-        if not v or v[1] not in ("IrredEqualsFull", "TabOnGrid"):
+        if not v or v[1] not in ("IrredEqualsFull", "TabOnGrid", "SymOnlyEqualsFull"):
             raise MachineryError(f"sensitivity self-test failed: Declared={decl} should violate IrredEqualsFull, TLC said {v} {s2.get('error')}")
         rep.part(f"c07_{decl}", sensitivity_violation=v[1])
 
@@ -235,7 +302,7 @@ def to_ints(a, what):
     return KS.to_int(a, what, tol=1e-6)
 
 
-def random_records(rep, n, rng):
+def random_records(rep, n, rng, tag):
     names = sorted(KS.CART) + sorted(KS.HEX)
     recs = []
     tries = 0
@@ -267,33 +334,34 @@ def random_records(rep, n, rng):
         fields.setdefault("r0_e_e", (en.reshape(1, Ntot).astype(float), 0, (1, False), (1, False)))
         info = dict(group=grp, N=N, NKdiv=div, NKFFT=fft, rank=rank, transformTR=tTR, transformInv=tInv)
         try:
-            r_irr, r_full = run_pair(grp, N, div, fft, fields, "c07_run")
-            irr = to_ints(r_irr.results[name].data[0] * Ntot, "irreducible result * Ntot")
-            full = to_ints(r_full.results[name].data[0] * Ntot, "full result * Ntot")
-            ti, tf = tab_values(r_irr, name, N, rank), tab_values(r_full, name, N, rank)
+            res = run_modes(rep, grp, N, div, fft, fields, tag + "_run", info, modes=("full", "irr", "symonly"))
+            if any(res.get(m) is None for m in ("full", "irr", "symonly")):
+                continue          # reported by run_modes
+            irr = to_ints(res["irr"].results[name].data[0] * Ntot, "irreducible result * Ntot")
+            full = to_ints(res["full"].results[name].data[0] * Ntot, "full result * Ntot")
+            symonly = to_ints(res["symonly"].results[name].data[0] * Ntot, "symmetrize-only result * Ntot")
+            ti, tf = tab_values(res["irr"], name, N), tab_values(res["full"], name, N)
             if ti is None or tf is None:
-                rep.violation("tab:grid:recorded", dict(info, what="TABresult.grid after run() is not the dense grid"))
+                rep.violation("tab:not_on_the_dense_grid:recorded", dict(info, what="the tabulated values cannot be brought to the dense grid N"))
                 continue
             tabirr = to_ints(ti[:, 0], "tabulated values (irreducible)")
             tabfull = to_ints(tf[:, 0], "tabulated values (full)")
         except KS.NonIntegral as ex:
             rep.violation("run:nonintegral_result", dict(info, what=str(ex)))
             continue
-        except Exception as ex:
-            import traceback
-            rep.violation(f"run:exception:{type(ex).__name__}", dict(info, what=str(ex)[:300], where=traceback.format_exc().splitlines()[-3:]))
-            continue
         rep.case(("rec", grp, N, div, rank, tTR, tInv, len(recs)))
         recs.append(dict(grp=grp, div=list(div), fft=list(fft), rank=rank, tTR=dict(f=tTR[0], t=tTR[1]), tInv=dict(f=tInv[0], t=tInv[1]),
-                         fld=f.reshape((Ntot,) + (3,) * rank).astype(int).tolist(), irr=irr.tolist(), full=full.tolist(),
+                         fld=f.reshape((Ntot,) + (3,) * rank).astype(int).tolist(), irr=irr.tolist(), full=full.tolist(), symonly=symonly.tolist(),
                          tabirr=tabirr.tolist(), tabfull=tabfull.tolist()))
-    if len(recs) < n:
+    if len(recs) < n and not rep.violations:
         raise MachineryError(f"only {len(recs)} of {n} records could be generated")
     return recs
 
 
-def part_records(rep, recs):
-    stv, bad = ftable.validate_records("IrredKernelRec.tla", ftable.REC_CFG, recs, "c07", timeout=2400, chunk=500)
+def part_records(rep, recs, tag):
+    if not recs:
+        return
+    stv, bad = ftable.validate_records("IrredKernelRec.tla", ftable.REC_CFG, recs, tag, timeout=2400, chunk=500)
     rep.add_tlc("c07_records", stv)
     rep.add_traces(len(recs))
     for i, clauses in sorted(bad.items()):
@@ -303,10 +371,8 @@ def part_records(rep, recs):
         site = "tab" if all(c.startswith("tab") for c in clauses) else "run"
         rep.violation(f"{site}:recorded:rank{r['rank']}", dict(record={k: v for k, v in r.items() if k not in ("tabirr", "tabfull")}, failing_clauses=clauses))
     rep.sample({k: v for k, v in recs[0].items() if k not in ("tabirr", "tabfull", "fld")})
-    # binding self-test
-    def flat_first(x):
-        return x if not isinstance(x, list) else flat_first(x[0])
 
+    # binding self-test
     def bump(x):
         if not isinstance(x, list):
             return x + 1
@@ -318,8 +384,11 @@ def part_records(rep, recs):
     c2["tabirr"][-1] = bump(c2["tabirr"][-1])
     c3 = copy.deepcopy(base)
     c3["fld"][-1] = bump(c3["fld"][-1])
-    _, b2 = ftable.validate_records("IrredKernelRec.tla", ftable.REC_CFG, [c1, c2, c3], "c07_selftest")
-    want = [{"irr_equals_full", "irr_is_spec"}, {"tab_irr"}, {"system_symmetric", "full_is_gridsum", "tab_irr", "tab_full"}]
+    c4 = copy.deepcopy(base)
+    c4["symonly"] = bump(c4["symonly"])
+    _, b2 = ftable.validate_records("IrredKernelRec.tla", ftable.REC_CFG, [c1, c2, c3, c4], tag + "_selftest")
+    want = [{"irr_equals_full", "irr_is_spec"}, {"tab_irr"}, {"system_symmetric", "full_is_gridsum", "tab_irr", "tab_full"},
+            {"symonly_equals_full", "symonly_is_spec"}]
     for i, w in enumerate(want):
         if i not in b2 or not (set(b2[i]) & w):
             raise MachineryError(f"binding self-test failed: corrupted record {i} accepted (failing clauses {b2.get(i)})")
@@ -327,10 +396,271 @@ def part_records(rep, recs):
 
 
 # ------------------------------------------------------------------------------------------------------------------
-# numeric only: real calculators on genuinely symmetric models
+# float fields: what the integer model does not contain (rank 3, transposes of three axes, conj, swap_axes, hexagonal tensors)
 
 
-def real_calculators(Ef, omega, berry=True, ext=False, per_band=True):
+def T_(factor=1, conj=False, perm=None):
+    return dict(factor=factor, conj=conj, perm=perm)
+
+
+# (group, rank, transform under TR, transform under inversion, how the transposition is declared, complex field)
+FLOAT_CASES_QUICK = [
+    ("mFe", 3, T_(-1, perm=(0, 2, 1)), T_(-1), "transpose_axes", False),          # transform_odd_trans_021 (dynamic.SHC)
+    ("D4hT", 3, T_(-1, perm=(1, 0, 2)), T_(1), "transpose_axes", False),          # transform_odd_trans_102 (formula.sdct)
+    ("mC4v", 2, T_(-1, conj=True), T_(1), "transpose_axes", True),                # transform_odd_conj
+    ("SiT", 2, T_(1, perm=(1, 0)), T_(-1), "swap_axes", False),                   # Transform(swap_axes=...)
+    ("H6v", 1, T_(1), T_(-1), "transpose_axes", False),                           # polar vector, hexagonal
+    ("mH6v", 2, T_(-1, perm=(1, 0)), T_(1), "transpose_axes", False),             # hexagonal rank 2, transposing and odd under TR
+    ("TeT", 2, T_(1), T_(1), "transpose_axes", False),
+    ("H3T", 1, T_(-1), T_(1), "transpose_axes", False),                           # axial vector odd under TR
+]
+FLOAT_CASES_MORE = [
+    ("Oh", 3, T_(1), T_(-1), "transpose_axes", False), ("SiT", 3, T_(-1, perm=(0, 2, 1)), T_(1), "transpose_axes", False),
+    ("mC4", 3, T_(-1, perm=(1, 0, 2)), T_(1), "swap_axes", False), ("T23", 3, T_(1), T_(1), "transpose_axes", False),
+    ("mFe", 2, T_(1, conj=True, perm=(1, 0)), T_(-1), "transpose_axes", True), ("C4v", 3, T_(1), T_(-1), "transpose_axes", False),
+    ("H6", 1, T_(1), T_(1), "transpose_axes", False), ("H6", 2, T_(1), T_(1), "transpose_axes", False),
+    ("H3", 2, T_(1), T_(1), "transpose_axes", False), ("H6v", 2, T_(1), T_(-1), "transpose_axes", False),
+    ("H3T", 2, T_(1, perm=(1, 0)), T_(1), "transpose_axes", False), ("TeT", 1, T_(-1), T_(1), "transpose_axes", False),
+    ("mH6v", 1, T_(-1), T_(-1), "transpose_axes", False), ("TeT", 2, T_(-1, conj=True), T_(1), "transpose_axes", True),
+]
+
+
+def part_float_fields(rep, thorough, rng, tag, configs):
+    """configs: the (grp, N, div, fft) run configurations of the TLC model (the specification decides groups, grids and factorisations)"""
+    cases = FLOAT_CASES_QUICK + (FLOAT_CASES_MORE if thorough else [])
+    nfields = 3 if thorough else 1
+    nprng = np.random.RandomState(rng.randrange(1 << 30))
+    by_grp = {}
+    for c in configs:
+        by_grp.setdefault(c[0], []).append(c)
+    worst = 0.0
+    ncase = nnonzero = 0
+    for grp, rank, sTR, sInv, how, cplx in cases:
+        G = sorted(KS.project_group(KS.make_system(grp).pointgroup))
+        lat = KS.lattice_of(grp)
+        cand = [c for c in by_grp.get(grp, []) if 4 <= int(np.prod(c[1])) <= 64]
+        if cand:
+            picks = [cand[rng.randrange(len(cand))] for _ in range(nfields)]
+        else:          # group not in the (quick) model: a grid on which both factors are symmetric
+            N = (4, 4, 1) if KS.is_cart(grp) else (3, 3, 2)
+            div = (2, 2, 1) if KS.is_cart(grp) else (3, 3, 1)
+            if not (KS.symmetric_grid(N, G) and KS.symmetric_grid(div, G)):
+                raise MachineryError(f"no symmetric grid chosen for {grp}")
+            picks = [(grp, N, div, tuple(n // d for n, d in zip(N, div)))] * nfields
+        tTR, tInv = KS.make_transform(sTR, how), KS.make_transform(sInv, how)
+        for (_, N, div, fft) in picks:
+            Ntot = int(np.prod(N))
+            h = nprng.randint(-3, 4, size=tuple(N) + (3,) * rank).astype(complex if cplx else float)
+            if cplx:
+                h = h + 1j * nprng.randint(-3, 4, size=h.shape)
+            f, defect = KS.sym_field_float(h, N, G, lat, rank, sTR, sInv)
+            en, _ = KS.sym_field_float(nprng.randint(0, 5, size=tuple(N)).astype(float), N, G, lat, 0, T_(1), T_(1))
+            scale = max(1.0, float(np.abs(f).max()))
+            if defect > 1e-10 * scale:
+                raise MachineryError(f"harness built a non-covariant float field for {grp} rank {rank}: defect {defect}")
+            from wannierberri.symmetry.point_symmetry import transform_ident
+            fields = {"f": (f.reshape((1, Ntot) + (3,) * rank), rank, tTR, tInv),
+                      "r0_e_e": (en.reshape(1, Ntot), 0, transform_ident, transform_ident)}
+            info = dict(group=grp, N=N, NKdiv=div, NKFFT=fft, rank=rank, transformTR=sTR, transformInv=sInv, declared_with=how, complex=cplx)
+            try:
+                res = run_modes(rep, grp, N, div, fft, fields, tag + "_run", info, modes=("full", "irr", "symonly"), transforms="given")
+            except KS.NonIntegral as ex:
+                rep.violation("run:kpoints_all_nonintegral", dict(info, what=str(ex)))
+                continue
+            if res.get("full") is None:
+                continue
+            ncase += 1
+            rep.case(("float", grp, N, div, rank, repr(sTR), repr(sInv), how, ncase))
+            exp = f.reshape((Ntot,) + (3,) * rank).mean(axis=0)
+            nnonzero += bool(np.abs(exp).max() > 1e-12)
+            key = f"rank{rank}:TR{'o' if sTR['factor'] < 0 else 'e'}{'c' if sTR['conj'] else ''}{'' if sTR['perm'] is None else ''.join(map(str, sTR['perm']))}" \
+                  f":I{'o' if sInv['factor'] < 0 else 'e'}:{how}:{'hex' if not KS.is_cart(grp) else 'cubic'}"
+            for mode in ("full", "irr", "symonly"):
+                r = res.get(mode)
+                if r is None:
+                    continue
+                got = r.results["f"].data[0]
+                dev = float(np.abs(got - exp).max())
+                worst = max(worst, dev / scale)
+                if not dev <= 1e-9 * scale:
+                    rep.violation(f"float_field:{mode}:{key}", dict(info, expected=np.asarray(exp).tolist() if not cplx else str(exp.tolist()),
+                                                                   got=np.asarray(got).tolist() if not cplx else str(got.tolist()), deviation=dev))
+                if mode == "symonly":
+                    continue
+                tv = tab_values(r, "f", N)
+                exp_tab = f.reshape((Ntot, 1) + (3,) * rank)
+                if tv is None or tv.shape != exp_tab.shape:
+                    rep.violation(f"float_field:tab:{mode}:not_on_the_dense_grid", dict(info, shape=None if tv is None else list(tv.shape)))
+                    continue
+                dev = float(np.abs(tv - exp_tab).max())
+                worst = max(worst, dev / scale)
+                if not dev <= 1e-9 * scale:
+                    rep.violation(f"float_field:tab:{mode}:{key}", dict(info, deviation=dev, first_bad_point=int(np.argmax(np.abs(tv - exp_tab).reshape(Ntot, -1).max(axis=1)))))
+    if ncase == 0 and not rep.violations:
+        raise MachineryError("no float field case was run")
+    rep.part("float_fields", deciding=True, cases=ncase, with_nonzero_integral=nnonzero, worst_relative_deviation=worst, tolerance=1e-9,
+             what="covariant float/complex fields: rank 3 with transposes (0,2,1)/(1,0,2), conj, swap_axes on cubic groups; rank 1-2 on hexagonal "
+                  "groups with Cartesian rotations from the catalogue element; integral (full / irreducible / symmetrize only) and tabulation")
+
+
+# ------------------------------------------------------------------------------------------------------------------
+# every calculator of the package on exactly symmetric spinful models: are the DECLARED parities the true ones?
+
+# calculators whose formula needs matrices no System can be given (CCab) or whose formula class does not exist in the package
+NOT_RUNNABLE = {"static.GME_orb_FermiSea_test", "static.Morb_test"}
+TAB_NOT_RUNNABLE = {"DerOrbitalMoment_test"}
+# quick tier: the three most expensive ones are left to the thorough tier
+QUICK_SKIP = {"static.NLDrude_Zeeman_orb", "static.NLDrude_Zeeman_orb_Omega", "static.eMChA_FermiSurf"}
+QUICK_TAB_SKIP = {"Der2OrbitalMoment", "Der2BerryCurvature"}
+CORE = {"dynamic.InjectionCurrent", "dynamic.JDOS", "dynamic.OpticalConductivity", "dynamic.SHC", "dynamic.ShiftCurrent", "sdct.SDCT_asym",
+        "sdct.SDCT_sym", "static.AHC", "static.AHC_Zeeman_orb", "static.AHC_Zeeman_spin", "static.AHC_test", "static.BerryDipole_FermiSea",
+        "static.BerryDipole_FermiSea_test", "static.BerryDipole_FermiSurf", "static.CumDOS", "static.DOS", "static.GME_orb_FermiSea",
+        "static.GME_orb_FermiSurf", "static.GME_spin_FermiSea", "static.GME_spin_FermiSurf", "static.Hall_classic_FermiSea",
+        "static.Hall_classic_FermiSurf", "static.Morb", "static.NLAHC_FermiSea", "static.NLAHC_FermiSurf", "static.NLDrude_FermiSea",
+        "static.NLDrude_FermiSurf", "static.NLDrude_Fermider2", "static.NLDrude_Zeeman_orb", "static.NLDrude_Zeeman_orb_Omega",
+        "static.NLDrude_Zeeman_spin", "static.Ohmic_FermiSea", "static.Ohmic_FermiSurf", "static.OmegaOmega", "static.QuantumMetric_FermiSea",
+        "static.QuantumMetric_Vel_DQ", "static.SHC", "static.Spin", "static.eMChA_FermiSurf"}
+CORE_TAB = {"BerryCurvature", "Der2BerryCurvature", "Der2OrbitalMoment", "Der2Spin", "Der3E", "DerBerryCurvature", "DerOrbitalMoment", "DerSpin",
+            "Energy", "InvMass", "OrbitalMoment", "Spin", "SpinBerry", "Velocity"}
+
+
+def known_elsewhere():
+    """calculators with a recorded (not yet repaired) defect that is a known finding of another property -> {name: reference}"""
+    out = {}
+    try:
+        with open(os.path.join(VERIF, "known_findings.json")) as f:
+            kf = json.load(f)
+        for e in kf.get("findings", []):
+            if e.get("property") == "C08" and "SDCT_surf_II" in e.get("key", ""):
+                out["sdct.SDCT_asym"] = f"C08 {e['key']}"
+    except Exception:
+        pass
+    return out
+
+
+def runnable(system, name, mk, tag):
+    """can this (non-core) calculator be built and evaluated at one k-point of this system?"""
+    import wannierberri as wb
+    try:
+        with quiet():
+            grid = wb.Grid(system=system, NKdiv=1, NKFFT=1)
+            KS.run_wb(system, grid, {name: mk()}, False, tag + "_num")
+        return True, None
+    except Exception as ex:
+        return False, f"{type(ex).__name__}: {str(ex)[:120]}"
+
+
+def part_all_calculators(rep, thorough, rng, tag):
+    import wannierberri as wb
+    from wannierberri import calculators as calc
+    from . import kmodels as km
+    omega = np.linspace(0.5, 3.0, 3)
+    known = known_elsewhere()
+    stats = dict(comparisons=0, worst=0.0, models=[], calculators=0, tabulators=0)
+    not_run = {}
+    hits = {}
+    groups = [("T", ["TimeReversal"], True, False), ("I", ["Inversion"], False, True), ("IT", ["Inversion", "TimeReversal"], True, True)]
+    grids = [((4, 4, 1), (1, 1, 1))] + ([((3, 3, 1), (2, 2, 1))] if thorough else [])
+    for label, gens, tr, inv in groups:
+        done = False
+        for attempt in range(8):
+            sd = rng.randrange(1 << 30)
+            m = km.build(sd, nw=2, keys=km.ALLKEYS, spinful=True, tr=tr, inv=inv)
+            system = m.system(periodic=(True, True, False))
+            with quiet():
+                system.set_pointgroup(gens)
+            Es = np.concatenate([km.grid_energies(m, tuple(a * b for a, b in zip(d, f))) for d, f in grids])
+            lo, hi = float(Es.min()), float(Es.max())
+            Ef = np.linspace(lo - 0.3, hi + 0.3, 7)
+            if not energies_safe(Es, Ef):
+                continue
+            reg = KS.all_calculators(Ef, Ef[2:5], omega, skip=NOT_RUNNABLE | (set() if thorough else QUICK_SKIP))
+            tabs = KS.all_tabulators(skip=TAB_NOT_RUNNABLE | (set() if thorough else QUICK_TAB_SKIP))
+            for k in sorted(set(reg) - CORE):          # calculators added to the package later: only if they can run on this system
+                ok, why = runnable(system, k, reg[k], tag)
+                if not ok:
+                    not_run[k] = why
+                    del reg[k]
+            for k in sorted(set(tabs) - CORE_TAB):
+                ok, why = runnable(system, "tab", lambda k=k: calc.TabulatorAll({"Energy": calc.tabulate.Energy(), k: tabs[k]()}, mode="grid", save_mode=""), tag)
+                if not ok:
+                    not_run["tabulate." + k] = why
+                    del tabs[k]
+            stats["calculators"], stats["tabulators"] = len(reg), len(tabs)
+
+            def mk(probe=False):
+                d = {k: (KS.ScaleProbe(f()) if probe else f()) for k, f in reg.items()}
+                d["tab"] = calc.TabulatorAll({k: c() for k, c in tabs.items()}, mode="grid", save_mode="")
+                return d
+            for div, fft in grids:
+                N = tuple(a * b for a, b in zip(div, fft))
+                info = dict(model=f"spinful kmodels {label}", generators=gens, model_seed=sd, NKdiv=div, NKFFT=fft)
+                try:
+                    with quiet():
+                        grid = wb.Grid(system=system, NKdiv=list(div), NKFFT=list(fft))
+                    probes = mk(probe=True)
+                    r_full = KS.run_wb(system, grid, probes, False, tag + "_num")
+                    if int(np.prod(fft)) == 1:
+                        scales = {}
+                        for k, p in probes.items():
+                            if k != "tab":
+                                cf = getattr(p.calc, "constant_factor", 1.0)
+                                try:
+                                    floor = abs(float(cf)) / float(system.cell_volume)
+                                except Exception:
+                                    floor = 0.0
+                                scales[k] = max(p.scale, floor)
+                    else:
+                        scales = KS.term_scales(system, N, {k: f() for k, f in reg.items()}, tag + "_num")
+                except MachineryError:
+                    raise
+                except Exception as ex:
+                    KS.report_exception(rep, ex, f"run:full:all_calculators:{label}", info)
+                    continue
+                modes = [("irreducible", True, True)] + ([("symmetrize_only", False, True)] if (thorough or label == "T") else [])
+                for mode, irr, sym in modes:
+                    try:
+                        r = KS.run_wb(system, grid, mk(), irr, tag + "_num", symmetrize=sym)
+                    except MachineryError:
+                        raise
+                    except Exception as ex:
+                        KS.report_exception(rep, ex, f"run:{mode}:all_calculators:{label}", info)
+                        continue
+                    rep.case(("allcalc", label, div, fft, mode))
+                    stats["comparisons"] += 1
+                    bad, w = compare_resultdicts(r_full, r, TOL, scales)
+                    for k, d, sc in bad:
+                        if k in known:
+                            hits.setdefault(k, dict(reference=known[k], group=label, maxdiff=d, magnitude=sc))
+                            continue
+                        rep.violation(f"declared_parity:{mode}_vs_full:{k}", dict(info, group=label, calculator=k, maxdiff=d, magnitude=sc, tolerance=TOL,
+                                                                                  what="irreducible K-points + symmetrisation with the DECLARED transformTR / "
+                                                                                       "transformInv of the result does not reproduce the full-grid result"))
+                    # the worst deviation of the calculators that are not a known finding
+                    for k, v in r_full.results.items():
+                        if k == "tab" or k in known:
+                            continue
+                        sc = max(float(np.abs(v.data).max()), scales.get(k, 0.0), 1e-300)
+                        stats["worst"] = max(stats["worst"], float(np.abs(v.data - r.results[k].data).max()) / sc)
+            stats["models"].append(label)
+            done = True
+            break
+        if not done and not rep.violations:
+            raise MachineryError(f"no {label}-symmetric model with safe energies in 8 attempts")
+    if hits:
+        rep.part("known_elsewhere", deviating=hits, note="defect already recorded as a known finding of another property; not a violation of C07 here")
+    rep.part("all_calculators", deciding=True, groups=stats["models"], integrating_calculators=stats["calculators"], tabulators=stats["tabulators"],
+             comparisons=stats["comparisons"], worst_relative_deviation=stats["worst"], tolerance=TOL, not_runnable_on_any_system=sorted(NOT_RUNNABLE | {"tabulate." + k for k in TAB_NOT_RUNNABLE}),
+             new_calculators_not_runnable=not_run, left_to_thorough=[] if thorough else sorted(QUICK_SKIP | {"tabulate." + k for k in QUICK_TAB_SKIP}),
+             what="every calculator found in calculators.static / dynamic / sdct / tabulate: irreducible + symmetrised (and symmetrisation alone) vs full "
+                  "unsymmetrised run on spinful models with all real-space matrices that are exactly symmetric under {E,T}, {E,I}, {E,I,T,IT}")
+
+
+# ------------------------------------------------------------------------------------------------------------------
+# real calculators on genuinely symmetric models with rotations / mirrors / magnetic groups
+
+
+def real_calculators(Ef, omega, berry=True, ext=False, per_band=True, tab=True):
     from wannierberri import calculators as calc
     kf = {} if ext else {"external_terms": False}
     sm = dict(save_mode="")
@@ -339,6 +669,7 @@ def real_calculators(Ef, omega, berry=True, ext=False, per_band=True):
          "ohmic_sea": calc.static.Ohmic_FermiSea(Efermi=Ef, **sm),
          "ohmic_surf": calc.static.Ohmic_FermiSurf(Efermi=Ef, **sm),
          "hall_classic": calc.static.Hall_classic_FermiSea(Efermi=Ef, **sm),
+         "nldrude": calc.static.NLDrude_FermiSea(Efermi=Ef, **sm),
          "jdos": calc.dynamic.JDOS(Efermi=Ef[1::3], omega=omega, kBT=0.05, smr_fixed_width=0.2, **sm)}
     tabs = {"Energy": calc.tabulate.Energy(), "vel": calc.tabulate.Velocity(), "mass": calc.tabulate.InvMass()}
     if berry:
@@ -348,10 +679,19 @@ def real_calculators(Ef, omega, berry=True, ext=False, per_band=True):
                   "opt": calc.dynamic.OpticalConductivity(Efermi=Ef[1::3], omega=omega, kBT=0.05, smr_fixed_width=0.2, kwargs_formula=kf, **sm)})
         tabs["berry"] = calc.tabulate.BerryCurvature(kwargs_formula=kf)
         tabs["derberry"] = calc.tabulate.DerBerryCurvature(kwargs_formula=kf)
-    if not per_band:      # degenerate bands (Kramers pairs): only band energies are well defined per band
+    if not per_band:      # degenerate bands (Kramers pairs): only band energies are compared per band
         tabs = {"Energy": calc.tabulate.Energy()}
-    c["tab"] = calc.TabulatorAll(tabs, mode="grid", save_mode="")
+    if tab:
+        c["tab"] = calc.TabulatorAll(tabs, mode="grid", save_mode="")
     return c
+
+
+def smooth_calculators(Ef, omega):
+    """integrands that are smooth in the band energies (no Fermi step): safe at k-points whose energies were not inspected"""
+    from wannierberri import calculators as calc
+    kf = {"external_terms": False}
+    dyn = dict(Efermi=Ef[1::3], omega=omega, kBT=0.05, smr_fixed_width=0.2, save_mode="")
+    return {"opt": calc.dynamic.OpticalConductivity(kwargs_formula=kf, **dyn), "jdos": calc.dynamic.JDOS(**dyn)}
 
 
 def no_degeneracy_on_grid(E, margin=1e-3):
@@ -386,37 +726,74 @@ def bundled_models():
             ("KaneMele_odd[C3z,TR]", kanemele, [((3, 3, 1), (2, 2, 1))], False)]
 
 
-def compare_irr_full(rep, label, system, grids, calcs_fn, Ef, tol, stats, per_band=True):
+def compare_irr_full(rep, label, system, grids, calcs_fn, Ef, tol, stats, tag, per_band=True, refine=None):
+    """-> True when every grid was compared, False when the model was excluded by a named predicate.
+    refine: calculators (smooth integrands) that are additionally compared with one step of adaptive refinement of every K-point"""
     import wannierberri as wb
-    from .c03 import compare_resultdicts
     scales = None
     for div, fft in grids:
-        with quiet():
-            grid = wb.Grid(system=system, NKdiv=list(div), NKFFT=list(fft))
-        r_full = KS.run_wb(system, grid, calcs_fn(), False, "c07_num")
+        info = dict(model=label, NKdiv=div, NKFFT=fft, system_seed=seed())
+        try:
+            with quiet():
+                grid = wb.Grid(system=system, NKdiv=list(div), NKFFT=list(fft))
+            r_full = KS.run_wb(system, grid, calcs_fn(), False, tag + "_num")
+        except MachineryError:
+            raise
+        except Exception as ex:
+            KS.report_exception(rep, ex, "run:full:real_calculators", info)
+            return True
         E = r_full.results["tab"].get_data(quantity="Energy")
         if not (energies_safe(E, Ef) and (no_degeneracy_on_grid(E) or not per_band)):
             stats["excluded"] += 1
             return False
-        if scales is None:
-            scales = KS.term_scales(system, tuple(int(a * b) for a, b in zip(grid.div, grid.FFT)),
-                                    {k: c for k, c in calcs_fn().items() if k != "tab"}, "c07_num")
-        r_irr = KS.run_wb(system, grid, calcs_fn(), True, "c07_num")
+        try:
+            if scales is None:
+                scales = KS.term_scales(system, tuple(int(a * b) for a, b in zip(div, fft)),
+                                        {k: c for k, c in calcs_fn().items() if k != "tab"}, tag + "_num")
+            r_irr = KS.run_wb(system, grid, calcs_fn(), True, tag + "_num")
+        except MachineryError:
+            raise
+        except Exception as ex:
+            KS.report_exception(rep, ex, "run:irreducible:real_calculators", info)
+            continue
         rep.case(("num", label, div, fft))
         stats["comparisons"] += 1
         bad, w = compare_resultdicts(r_full, r_irr, tol, scales)
         stats["worst"] = max(stats["worst"], w)
         for k, d, sc in bad:
-            rep.violation(f"numeric:irreducible_vs_full:{k}", dict(model=label, NKdiv=div, NKFFT=fft, maxdiff=d, magnitude=sc, tolerance=tol,
-                                                                  system_seed=seed()))
+            rep.violation(f"numeric:irreducible_vs_full:{k}", dict(info, maxdiff=d, magnitude=sc, tolerance=tol))
+    if refine is not None:
+        div, fft = grids[0]
+        info = dict(model=label, NKdiv=div, NKFFT=fft, system_seed=seed(), adpt_num_iter=1, refined="every K-point")
+        try:
+            with quiet():
+                grid = wb.Grid(system=system, NKdiv=list(div), NKFFT=list(fft))
+            big = 10 ** 6       # adpt_fac >= number of K-points: every K-point is refined, so both runs integrate the same finer grid
+            rf = KS.run_wb(system, grid, refine(), False, tag + "_num", adpt_num_iter=1, adpt_fac=big)
+            ri = KS.run_wb(system, grid, refine(), True, tag + "_num", adpt_num_iter=1, adpt_fac=big)
+            r0 = KS.run_wb(system, grid, refine(), False, tag + "_num")
+        except MachineryError:
+            raise
+        except Exception as ex:
+            KS.report_exception(rep, ex, "run:adaptive_refinement", info)
+            return True
+        sc2 = KS.term_scales(system, tuple(int(a * b) for a, b in zip(div, fft)), refine(), tag + "_num")
+        bad, w = compare_resultdicts(rf, ri, tol, sc2)
+        stats["worst"] = max(stats["worst"], w)
+        stats["refined"] += 1
+        changed = max(float(np.abs(rf.results[k].data - r0.results[k].data).max()) for k in rf.results)
+        if changed == 0.0:
+            raise MachineryError("adaptive refinement did not change any result: the refinement case is vacuous")
+        rep.case(("num_refined", label, div, fft))
+        for k, d, sc in bad:
+            rep.violation(f"numeric:refined:irreducible_vs_full:{k}", dict(info, maxdiff=d, magnitude=sc, tolerance=tol))
     return True
 
 
-def part_numeric(rep, thorough, rng):
+def part_numeric(rep, thorough, rng, tag):
     Ef = np.linspace(-2.0, 2.0, 9) + 0.0137       # off the round band energies of the bundled models
     omega = np.linspace(0.0, 3.0, 4)
-    tol = 1e-8
-    stats = dict(comparisons=0, worst=0.0, excluded=0)
+    stats = dict(comparisons=0, worst=0.0, excluded=0, refined=0)
     plan = [("C4v", True, [((2, 2, 1), (2, 2, 1)), ((4, 4, 1), (1, 1, 1))]),
             ("mC4v", True, [((2, 2, 1), (2, 2, 1)), ((1, 1, 1), (4, 4, 1))]),
             ("mFe", False, [((2, 2, 2), (2, 2, 1))]),
@@ -427,34 +804,48 @@ def part_numeric(rep, thorough, rng):
                  ("mC4", True, [((4, 4, 1), (2, 2, 1))]), ("D4hT", False, [((2, 2, 1), (2, 2, 2))]), ("O", False, [((3, 3, 3), (1, 1, 1))]),
                  ("C2v", True, [((4, 2, 1), (1, 2, 1))])]
     models = []
-    for grp, planar, grids in plan:
+    for ip, (grp, planar, grids) in enumerate(plan):
         for it in range(2 if thorough else 1):
             done = False
-            for attempt in range(6):
+            for attempt in range(8):
                 nw = rng.choice([2, 3])
                 ham = KS.symmetric_hamiltonian(grp, rng, nw=nw, planar=planar)
                 system = KS.make_system(grp, nw=nw, ham=ham, periodic=(True, True, not planar))
-                if compare_irr_full(rep, f"symmetrised-random[{grp}]", system, grids, lambda: real_calculators(Ef, omega), Ef, tol, stats):
+                refine = (lambda: smooth_calculators(Ef, omega)) if (it == 0 and (ip < 2 or thorough)) else None
+                if compare_irr_full(rep, f"symmetrised-random[{grp}]", system, grids, lambda: real_calculators(Ef, omega), Ef, TOL, stats, tag, refine=refine):
                     done = True
                     break
             if done:
                 models.append(grp)
+            elif not rep.violations:
+                raise MachineryError(f"plan entry {grp}: 8 random models were all excluded by EnergiesSafe / NoDegeneracyOnGrid")
+    skipped = {}
     for label, mk, grids, per_band in bundled_models():
         try:
             with quiet():
                 system = mk()
-        except Exception as ex:      # pythtb / model construction is not what is being checked here
-            rep.part("numeric_only_skipped_" + label.split("[")[0], reason=repr(ex)[:200])
+        except MachineryError:
+            raise
+        except Exception as ex:
+            if KS.lib_fault(ex) is not None and not isinstance(ex, ImportError):
+                KS.report_exception(rep, ex, "models:" + label.split("[")[0], dict(model=label))
+            else:       # pythtb missing / constructor called with arguments it no longer has: not what is being checked here
+                skipped[label] = repr(ex)[:200]
             continue
         if compare_irr_full(rep, label, system, grids if thorough else grids[:1],
-                            lambda: real_calculators(Ef, omega, ext=True, per_band=per_band), Ef, tol, stats, per_band=per_band):
+                            lambda: real_calculators(Ef, omega, ext=True, per_band=per_band), Ef, TOL, stats, tag, per_band=per_band):
             models.append(label)
-    rep.part("numeric_only", what="irreducible + symmetrised vs full unsymmetrised run(): CumDOS, DOS, AHC, Ohmic (sea/surface), Hall_classic, "
-             "BerryDipole (sea/surface), OpticalConductivity, JDOS, TabulatorAll(Energy, Velocity, InvMass, BerryCurvature, DerBerryCurvature)",
-             models=models, comparisons=stats["comparisons"], worst_relative_deviation=stats["worst"], tolerance=tol,
-             excluded_by_EnergiesSafe_or_NoDegeneracyOnGrid=stats["excluded"])
-    if stats["comparisons"] == 0:
-        raise MachineryError("numeric part made no comparison")
+        elif not rep.violations:
+            raise MachineryError(f"bundled model {label} is excluded by EnergiesSafe / NoDegeneracyOnGrid for the fixed Fermi levels")
+    rep.part("real_calculators", deciding=True,
+             what="irreducible + symmetrised vs full unsymmetrised run(): CumDOS, DOS, AHC, Ohmic (sea/surface), Hall_classic, NLDrude, "
+             "BerryDipole (sea/surface), OpticalConductivity, JDOS, TabulatorAll(Energy, Velocity, InvMass, BerryCurvature, DerBerryCurvature); "
+             "with one step of adaptive refinement of every K-point: OpticalConductivity, JDOS (smooth integrands)",
+             models=models, comparisons=stats["comparisons"], refined_comparisons=stats["refined"], worst_relative_deviation=stats["worst"], tolerance=TOL,
+             tolerance_over_worst=(TOL / stats["worst"] if stats["worst"] > 0 else None),
+             excluded_by_EnergiesSafe_or_NoDegeneracyOnGrid=stats["excluded"], bundled_models_skipped=skipped)
+    if stats["comparisons"] == 0 and not rep.violations:
+        raise MachineryError("real-calculator part made no comparison")
 
 
 def check(pid, tier):
@@ -462,18 +853,37 @@ def check(pid, tier):
     thorough = tier == "thorough"
     rng = random.Random(seed() * 7919 + 7)
     os.environ.setdefault("JAVA_TOOL_OPTIONS", "-Xss64m")      # TLC worker threads evaluate deep (non-tail) recursions of the sort/fold operators
-    workdir("c07_run")
-    workdir("c07_num")
-    rep.rule("a case = one finished TLC state (group, dense grid, factorisation, rank, parities, source field) replayed through a pair of real "
-             "run()s (irreducible+symmetrised / full), one recorded random symmetric field validated by TLC, or (numeric_only) one real model "
-             "and grid compared between the two run modes; distinct by input tuple")
-    rep.assume("the synthetic system 'has' the group: its integrand is a covariant field (checked by TLC on the spec side and on every record)")
-    rep.assume("exact tensors of rank >= 1 only on cubic-type lattices (integer Cartesian rotations); hexagonal groups are exercised with rank 0")
-    rep.assume("numeric_only part: EnergiesSafe (1e-6 from Fermi bin edges / degen_thresh) and NoDegeneracyOnGrid (gaps > 1e-3 at grid points)")
-    part_kernel(rep, thorough, rng)
-    part_model_only(rep, thorough)
-    part_records(rep, random_records(rep, 300 if thorough else 25, rng))
-    part_numeric(rep, thorough, rng)
-    for d in ("c07_run", "c07_num"):
-        shutil.rmtree(os.path.join(WORK, d), ignore_errors=True)
-    return rep.finish()
+    tag = KS.scratch("c07")
+    workdir(tag + "_run")
+    workdir(tag + "_num")
+    rep.rule("a case = one covariant field of a finished TLC state (group, dense grid, factorisation, rank, parities, source field) replayed through "
+             "real run()s (full / irreducible+symmetrised / symmetrisation alone), one recorded random symmetric field validated by TLC, one float "
+             "field with a transform outside the model, or one real model, grid and run mode compared with the full run; distinct by input tuple")
+    rep.assume("the synthetic system 'has' the group: its integrand is a covariant field (checked by TLC on the spec side and on every record, "
+               "numerically for the float fields)")
+    rep.assume("exact tensors of rank >= 1 only on cubic-type lattices (integer Cartesian rotations); hexagonal groups: rank 0 exactly, rank 1-2 in float")
+    rep.assume("real-calculator parts: EnergiesSafe (1e-6 from Fermi bin edges / degen_thresh) and, for per-band tabulations of the rotation-group "
+               "models, NoDegeneracyOnGrid (gaps > 1e-3 at grid points); the refinement case uses integrands that are smooth in the band energies")
+    try:
+        t0 = cpu_seconds()
+        spec_groups, configs = part_kernel(rep, thorough, rng, tag)
+        part_model_only(rep, thorough, tag)
+        part_records(rep, random_records(rep, 300 if thorough else 15, rng, tag), tag)
+        t1 = cpu_seconds()
+        part_float_fields(rep, thorough, rng, tag, configs)
+        t2 = cpu_seconds()
+        part_all_calculators(rep, thorough, rng, tag)
+        t3 = cpu_seconds()
+        part_numeric(rep, thorough, rng, tag)
+        KS.flush_private(rep)
+        rep.part("cpu_seconds", exact_parts=round(t1 - t0, 1), float_fields=round(t2 - t1, 1), all_calculators=round(t3 - t2, 1),
+                 real_calculators=round(cpu_seconds() - t3, 1))
+    except Exception:
+        if rep.violations:          # never lose what was already found
+            KS.flush_private(rep)
+            rep.finish()
+        cleanup(tag, keep_tlc=True)
+        raise
+    rc = rep.finish()
+    cleanup(tag, keep_tlc=bool(rep.violations))
+    return rc
